@@ -80,7 +80,35 @@ theorem assoc_map_cond {β : Type} (l : List (Name × β)) (p : Name → Bool) (
       · subst hk; simp [hp]
       · simp [hk, ih]
 
+/-- like `assoc_map_cond`, with a rewrite that may depend on the key -/
+theorem assoc_map_cond_key {β : Type} (l : List (Name × β)) (p : Name → Bool) (g : Name → β → β) (n : Name) :
+    assoc (l.map (fun c => if p c.1 then (c.1, g c.1 c.2) else c)) n = (assoc l n).map (fun b => if p n then g n b else b) := by
+  induction l with
+  | nil => simp [assoc]
+  | cons h t ih =>
+    obtain ⟨k, v⟩ := h
+    simp only [List.map_cons]
+    by_cases hp : p k = true
+    · simp only [hp, if_true, assoc]
+      by_cases hk : k = n
+      · subst hk; simp [hp]
+      · simp [hk, ih]
+    · simp only [hp, assoc]
+      by_cases hk : k = n
+      · subst hk; simp [hp]
+      · simp [hk, ih]
+
 /-! ### bodies -/
+
+/-- `_create_cte_from_expression` clears only the WITH list of the copied leaf: every operator of the leaf moves into the CTE -/
+theorem movedLeaf_id (hc : cteClearedArgs = ["with"]) (b : Body) : movedLeaf b = b := by
+  cases b with
+  | un op b =>
+    have : cteClearedArgs.contains op.clause = false := by
+      rw [hc]; cases op <;> simp [UnOp.clause]
+    unfold movedLeaf
+    rw [this]; rfl
+  | _ => rfl
 
 theorem rename_eq_self (ρ : Name → Name) (b : Body) (h : ∀ m ∈ b.refs, ρ m = m) : b.rename ρ = b := by
   induction b with
@@ -275,21 +303,14 @@ theorem assoc_addAll (chains : List (List CTE)) : ∀ (cs : List CTE) (n : Name)
       have : (names cs).contains n = false := by simpa using hn
       simp only [this, Bool.not_false, if_true]
 
-theorem spliceCtes_eq_addAll (cfg : SpliceCfg) (norm : Name → Name) (reg : Registry) (users : List Name)
-    (ha : cfg.append = .ifAbsent) (hp : cfg.pos = .append) :
-    ∀ (refs : List Name) (cs : List CTE),
-      spliceCtes cfg norm reg users refs cs =
-        addAll cs ((refs.filterMap (viewOf cfg norm reg users)).map (fun e => e.frame.ctes)) := by
-  intro refs
-  induction refs with
-  | nil => intro cs; simp [spliceCtes, addAll]
-  | cons r rs ih =>
+theorem addChains_eq_addAll (cfg : SpliceCfg) (ha : cfg.append = .ifAbsent) (hp : cfg.pos = .append) :
+    ∀ (es : List Entry) (cs : List CTE), addChains cfg es cs = addAll cs (es.map (fun e => e.frame.ctes)) := by
+  intro es
+  induction es with
+  | nil => intro cs; simp [addChains, addAll]
+  | cons e rest ih =>
     intro cs
-    simp only [spliceCtes]
-    cases hv : viewOf cfg norm reg users r with
-    | none => simp [hv, ih]
-    | some e =>
-      simp only [hv, ih, List.filterMap_cons, List.map_cons, addAll, List.foldl_cons, addCtes, hp, ctesToAdd, ha]
+    simp only [addChains, ih, List.map_cons, addAll, List.foldl_cons, addCtes, hp, ctesToAdd, ha]
 
 theorem firstBind_some (chains : List (List CTE)) (n : Name) (b : Body) (h : firstBind chains n = some b) :
     ∃ ch ∈ chains, assoc ch n = some b := by
